@@ -4,7 +4,7 @@ import shutil
 from vlib import diffexec
 from vlib.loopgen import LoopGen
 from vlib.core import sighash
-from vlib.checks.c30 import classify_detail, innermost_loki_frame, coarse
+from vlib.checks.c30 import classify_detail, innermost_loki_frame
 
 PID = 'C31'
 LEVEL = 'exploration'
@@ -35,7 +35,7 @@ MIN_NONTRIVIAL = {'quick': 100, 'thorough': 1500}
 ANCHORS = ['loki/transformations/transform_loop.py', 'loki/transformations/loop_blocking.py']
 REQUIRED_REACH = ['do_loop_unroll', 'do_loop_fusion', 'do_loop_fission', 'do_loop_interchange', 'split_loop',
                   'block_loop_arrays']
-REQUIRED_COUNTERS = {'transformed_equal': 100}
+REQUIRED_COUNTERS = {'transformed_equal': 40}
 ASSUMPTIONS = ['gfortran 12 -O0 with run-time checks is the reference semantics',
                'templates are legal for the annotated transformation by construction',
                'reals compared to relative 1e-11, integers exactly']
